@@ -14,7 +14,7 @@ use std::time::{Duration, Instant};
 pub const WORKERS: usize = 16;
 const CASE_TIMEOUT_S: u64 = 60;
 const SHRINK_BUDGET: usize = 6000;
-const VMEM_KB: u64 = 6 * 1024 * 1024;
+const VMEM_KB: u64 = 3 * 1024 * 1024;
 
 pub fn verif_root() -> PathBuf {
     if let Ok(r) = std::env::var("LSVERIF_ROOT") {
@@ -455,6 +455,8 @@ fn limited_command(exe: &Path) -> Command {
     // address-space cap: a runaway allocation becomes an abort instead of eating the machine
     let mut c = Command::new("sh");
     c.arg("-c").arg(format!("ulimit -v {}; exec \"$0\" \"$@\"", VMEM_KB)).arg(exe);
+    // few malloc arenas: short-lived case threads must not each reserve their own 64 MiB arena
+    c.env("MALLOC_ARENA_MAX", "4");
     c
 }
 
@@ -1240,4 +1242,36 @@ pub fn describe_main(reg: &Registry, args: &[String]) -> i32 {
     let case = (space.decode)(&mut src);
     println!("{}", case.describe());
     0
+}
+
+/// `lsverif shrinkfile <prop> <space> <file.choices>`: shrink a violation found by the fuzz stage
+/// in the checked build, write the replay file, print the VIOLATION line. Exit 1 if it reproduces.
+pub fn shrinkfile_main(reg: &Registry, args: &[String]) -> i32 {
+    let id = args[0].as_str();
+    let prop = match reg.get(id) {
+        Some(p) => p,
+        None => return 2,
+    };
+    let space: usize = args[1].parse().unwrap_or(0);
+    let text = std::fs::read_to_string(&args[2]).unwrap_or_default();
+    let mut lines = text.lines();
+    let clause = lines.next().unwrap_or("").to_string();
+    let choices: Vec<u32> = lines.next().unwrap_or("").split_whitespace().filter_map(|x| x.parse().ok()).collect();
+    let detail0 = lines.next().unwrap_or("").to_string();
+    let exe = std::env::current_exe().unwrap();
+    let mut orc = SingleOracle { prober: Prober::new(&exe, id, space, false, false), clause: clause.clone() };
+    let sh = shrink(&mut orc, &choices);
+    if !sh.reproduced {
+        println!("fuzz finding did not reproduce in the checked build (clause {}): {}", clause, detail0);
+        return 0;
+    }
+    let seed: u64 = std::env::var("VERIF_SEED").ok().and_then(|s| s.trim().parse::<i128>().ok()).map(|v| v as u64).unwrap_or(0);
+    let mut case = sh.case.clone();
+    if case.is_null() {
+        case = describe_choices(&exe, id, space, &sh.choices);
+    }
+    let path = write_replay(&verif_root(), id, &clause, &space, prop, Some(sh.choices.clone()), 0, PrngKind::SplitMix, &clause, &sh.signature, &sh.detail, &case, seed, true);
+    println!("clause: {}\ndetail: {}\ncase: {}", clause, truncate(&sh.detail, 1500), truncate(&case.to_string(), 3000));
+    println!("VIOLATION property={} replay={}", id, path.display());
+    1
 }
